@@ -86,6 +86,10 @@ def run(tier='quick'):
                 chk.ok(L4, '%s framing %s' % (short, g.framing), locstr(g.func.node))
     _framing(prog, chk, L4)
     _columns(prog, chk, spec)
+    L6 = chk.rule('L6', 'no member update is made on a local copy that is then dropped (conversion layer, codecs, '
+                        'storage): the value that reaches the encoder is the one the code computed', floor=20)
+    from .. import rowrules as _rr
+    _rr.lost_updates(prog, chk, L6)
     return chk.finish(
         'Static comparison of the byte layout the code implements with an independent declarative layout '
         'table: the bit/byte mapping of the 14 primitives is derived from their AST, the ordered '
